@@ -255,11 +255,36 @@ func init() {
 			return nil
 		},
 		"WatchHits": func(fr *frame, args []value) value { return len(fr.i.watchHits) },
+		"WatchHitsTag": func(fr *frame, args []value) value {
+			// hits on cells registered under the given tag (tags of different purposes never interfere)
+			tag := argString(args[0])
+			n := 0
+			for _, h := range fr.i.watchHits {
+				if strings.HasPrefix(h.what, tag+" ") {
+					n++
+				}
+			}
+			return n
+		},
+		"WatchChangedTag": func(fr *frame, args []value) value {
+			// value-level frame condition: stores under the tag that CHANGED the cell's value
+			tag := argString(args[0])
+			n := 0
+			for _, h := range fr.i.watchHits {
+				if h.changed && strings.HasPrefix(h.what, tag+" ") {
+					n++
+				}
+			}
+			return n
+		},
+		// NativeCheck(f): the compiled harness evaluates f (a check only the native run can afford, e.g. comparing
+		// serialisations); the engine, which decides the same fact by other means, takes it as true without running f.
+		"NativeCheck": func(fr *frame, args []value) value { return true },
 		"WatchReport": func(fr *frame, args []value) value {
 			// makes the first hits visible in the violation message
 			for k, h := range fr.i.watchHits {
 				if k < 3 {
-					fr.i.noteStub("watched cell written: " + h)
+					fr.i.noteStub("watched cell written: " + h.what)
 				}
 			}
 			return nil
